@@ -26,6 +26,27 @@ import (
 // VH_CHAN_CTOR=defaultchan: build blocking-mode ChanOps with fun.DefaultChan(ch) alone (probe, never a registered run)
 var ctorDefaultChan = os.Getenv("VH_CHAN_CTOR") == "defaultchan"
 
+// A code under test that spins (never quiescent) cannot be judged: such behaviours are inconclusive.  After
+// maxInconclusive of them this process stops executing (the rest is reported inconclusive at once), so that the
+// check ends with its verdicts from the other behaviours instead of burning its budget.
+const maxInconclusive = 8
+
+var inconclusiveSeen int
+
+func tooManyInconclusive(n int) map[string]any {
+	return map[string]any{"n": n, "ok": true, "inconclusive": "skipped: too many inconclusive behaviours in this process"}
+}
+
+func noteInconclusive(res map[string]any) map[string]any {
+	if res != nil && res["inconclusive"] != nil {
+		inconclusiveSeen++
+	}
+	return res
+}
+
+// quiesce is rt.Quiesce with a smaller budget (a failure costs seconds; the drivers use no timers)
+func quiesce() ([]rt.G, error) { return rt.QuiesceBudget(1500) }
+
 func main() {
 	if len(os.Args) < 2 {
 		fmt.Fprintln(os.Stderr, "usage: vh-chan sched|record|dseq|drecord")
@@ -40,7 +61,11 @@ func main() {
 			}
 			rt.Emit(map[string]any{"begin": in.N})
 			rt.Flush()
-			rt.Emit(runSched(in))
+			if inconclusiveSeen >= maxInconclusive {
+				rt.Emit(tooManyInconclusive(in.N))
+			} else {
+				rt.Emit(noteInconclusive(runSched(in)))
+			}
 			rt.Flush()
 		})
 	case "record":
@@ -55,7 +80,11 @@ func main() {
 			}
 			rt.Emit(map[string]any{"begin": in.N})
 			rt.Flush()
-			rt.Emit(replayDist(in))
+			if inconclusiveSeen >= maxInconclusive {
+				rt.Emit(tooManyInconclusive(in.N))
+			} else {
+				rt.Emit(noteInconclusive(replayDist(in)))
+			}
 			rt.Flush()
 		})
 	case "drecord":
